@@ -373,6 +373,14 @@ def stepArgs (w : World) (op : String) (a : Args) : World × String :=
        | _, _ => (w, "bad-op:dor"))
     | none, _ => (w, "bad-op:no-such-map")
     | _, _ => (w, "bad-op:dor")
+  | "cat" =>
+    let names := splitList (a.getD "files" "_")
+    match names.mapM (fun n => (w.files.find? (·.1 == n)).map (·.2)) with
+    | none => (w, "bad-op:no-such-map")
+    | some fs =>
+      match apiCat fs (a.nat? "covord") (a.flag "check") (a.flag "or") with
+      | .ok fo => ({ w with files := (a.getD "f" "f", fo) :: w.files.filter (·.1 != a.getD "f" "f") }, "ok")
+      | .error e => (w, errLine e)
   | "vals" => withMap w a fun m => (w, showVals ((List.range m.npix).map m.abs))
   | "get" => withMap w a fun m =>
     let pix? : Option (List Nat) :=
